@@ -385,6 +385,23 @@ pub fn run_layout(opts: &Opts, rep: &mut Report) {
 
 // ---------------------------------------------------------------------------------- exhausted index space
 
+/// item with drop accounting for the exhaust mode
+pub struct Counted(pub String);
+
+static COUNTED_CREATED: AtomicU64 = AtomicU64::new(0);
+static COUNTED_DROPPED: AtomicU64 = AtomicU64::new(0);
+
+fn ct(s: String) -> Counted {
+    COUNTED_CREATED.fetch_add(1, Ordering::SeqCst);
+    Counted(s)
+}
+
+impl Drop for Counted {
+    fn drop(&mut self) {
+        COUNTED_DROPPED.fetch_add(1, Ordering::SeqCst);
+    }
+}
+
 /// 0 idle, 1 armed (the next thread reaching VecAfterReserve parks), 2 parked, 3 released
 static PARK: AtomicU64 = AtomicU64::new(0);
 
@@ -412,14 +429,16 @@ pub fn run_exhaust(opts: &Opts, rep: &mut Report) {
         let mut rng = Rng::new(mix(&[opts.seed, opts.shard, idx, 32]));
         let cols = rng.range(1, 3);
         let cap = *rng.pick(&[0u32, 1, 32, 100]);
-        let vec: BoxcarVec<String> = BoxcarVec::with_capacity(cap, cols as u32);
-        let n0 = rng.range(1, 40) as u32;
+        let created_before = COUNTED_CREATED.load(Ordering::SeqCst);
+        let dropped_before = COUNTED_DROPPED.load(Ordering::SeqCst);
+        let vec: BoxcarVec<Counted> = BoxcarVec::with_capacity(cap, cols as u32);
+        let n0 = *rng.pick(&[1usize, 5, 31, 32, 33, 40, 100, 130]) as u32;
         let mut stored: Vec<(u32, String)> = Vec::new();
         let mut problems: Vec<(&'static str, String)> = Vec::new();
         let mut ops: Vec<String> = Vec::new();
         for i in 0..n0 {
             let v = format!("first-{i}");
-            let idx = vec.push(v.clone(), |_, c| c[0] = col_text(i, 0).into());
+            let idx = vec.push(ct(v.clone()), |_, c| c[0] = col_text(i, 0).into());
             stored.push((idx, v));
         }
         ops.push(format!("{n0} pushes"));
@@ -447,7 +466,7 @@ pub fn run_exhaust(opts: &Opts, rep: &mut Report) {
                     counter += reported as u64;
                     label = format!("extend reporting {reported} elements (2 real)");
                     let it = LenIter {
-                        inner: vec![format!("huge-{r}-a"), format!("huge-{r}-b")].into_iter(),
+                        inner: vec![ct(format!("huge-{r}-a")), ct(format!("huge-{r}-b"))].into_iter(),
                         reported,
                     };
                     // the refused batch runs on its own thread and is parked right after its reservation; this thread reads
@@ -493,7 +512,7 @@ pub fn run_exhaust(opts: &Opts, rep: &mut Report) {
                     let reported = u32::MAX as usize + 1 + rng.below(1000);
                     label = format!("extend reporting {reported} elements (1 real)");
                     let it = LenIter {
-                        inner: vec![format!("huger-{r}")].into_iter(),
+                        inner: vec![ct(format!("huger-{r}"))].into_iter(),
                         reported,
                     };
                     catch_unwind(AssertUnwindSafe(|| {
@@ -507,7 +526,7 @@ pub fn run_exhaust(opts: &Opts, rep: &mut Report) {
                     let v = format!("late-{late}");
                     label = format!("push {v} (reservation number {counter})");
                     let v2 = v.clone();
-                    catch_unwind(AssertUnwindSafe(|| Some((vec.push(v2, |_, c| c[0] = "late".into()), v))))
+                    catch_unwind(AssertUnwindSafe(|| Some((vec.push(ct(v2), |_, c| c[0] = "late".into()), v))))
                 }
                 _ => {
                     late += 1;
@@ -516,7 +535,7 @@ pub fn run_exhaust(opts: &Opts, rep: &mut Report) {
                     label = format!("extend [{v}] (reservation number {counter})");
                     let v2 = v.clone();
                     catch_unwind(AssertUnwindSafe(|| {
-                        vec.extend(vec![v2].into_iter(), |_, c| c[0] = "late".into());
+                        vec.extend(vec![ct(v2)].into_iter(), |_, c| c[0] = "late".into());
                         None
                     }))
                 }
@@ -545,9 +564,9 @@ pub fn run_exhaust(opts: &Opts, rep: &mut Report) {
             // whatever happened, the items that were stored stay what they were
             for (i, v) in &stored {
                 match vec.get(*i) {
-                    Some(item) if item.data == v => (),
+                    Some(item) if item.data.0 == *v => (),
                     Some(item) => {
-                        problems.push(("item-changed-after-later-operation", format!("index {i} holds {:?}, the push that owns it stored {v:?} (after {label})", item.data)));
+                        problems.push(("item-changed-after-later-operation", format!("index {i} holds {:?}, the push that owns it stored {v:?} (after {label})", item.data.0)));
                         break;
                     }
                     None => {
@@ -579,6 +598,7 @@ pub fn run_exhaust(opts: &Opts, rep: &mut Report) {
         }
         h.add(cap as u64 * 8 + cols as u64);
         rep.distinct(h.finish());
+        let clean = problems.is_empty();
         for (kind, msg) in problems.into_iter().take(2) {
             rep.violation(
                 "C08",
@@ -589,6 +609,20 @@ pub fn run_exhaust(opts: &Opts, rep: &mut Report) {
             );
         }
         drop(vec);
+        // C11: every item that was ever constructed for this vector (stored, refused, surplus) is gone now, exactly once
+        let created = COUNTED_CREATED.load(Ordering::SeqCst) - created_before;
+        let dropped = COUNTED_DROPPED.load(Ordering::SeqCst) - dropped_before;
+        rep.add("c11.items-accounted-after-exhaustion", created);
+        if clean && created != dropped {
+            rep.violation(
+                "C11",
+                if dropped < created { "payload-never-dropped" } else { "payload-dropped-twice" },
+                "vector whose index space was exhausted".into(),
+                jobj! {"problem" => format!("{created} items were constructed for the vector, {dropped} destructions after the vector was dropped"),
+                       "case_id" => format!("{}:{}:{}", opts.seed, opts.shard, idx), "capacity" => cap, "columns" => cols as u64, "items_pushed_first" => n0,
+                       "operations" => crate::json::J::Arr(ops.iter().map(|o| crate::json::J::Str(o.clone())).collect())},
+            );
+        }
     }
     nucleo::verif::set_hook(None);
 }
